@@ -369,6 +369,18 @@ pub fn check(ctx: &mut Ctx, which: &'static str) {
         |t| gen_long(t, true),
         |c, obs| if is07 { oracle_c07(c, obs, false) } else { oracle_c08(c, obs, false) },
     );
+    if ctx.tier == Tier::Thorough {
+        let pairs = all_pairs(true);
+        let mut seeds = vec![];
+        for (i, t) in repo_seed_texts().iter().enumerate() {
+            // fixtures use "/* <" "> */" (index 3) and the default pair (index 1)
+            seeds.push(crate::fuzzglue::encode("tokens", if i % 2 == 0 { 3 } else { 1 }, 0, t));
+        }
+        for (i, (ds, de)) in pairs.iter().enumerate() {
+            seeds.push(crate::fuzzglue::encode("tokens", i as u8, 0, &format!("x{ds}rm name='a'{de}é{ds}/rm{de}\n{ds}")));
+        }
+        ctx.fuzz_campaign("tokens", 500_000, 256, seeds, move |data| crate::fuzzglue::fuzz_one("tokens", which, data));
+    }
 }
 
 pub fn replay(which: &str, _sub: &str, case: &Value, obs: &mut Obs) -> Result<Verdict, String> {
